@@ -149,6 +149,7 @@ type C19Updater struct {
 // C19Plugin is one stub plugin and the update calls it issues at the edges of its session.
 type C19Plugin struct {
 	Idx  string `json:"idx"`
+	Mask int32  `json:"mask,omitempty"` // subscription, 0 = everything
 	Late bool   `json:"late,omitempty"` // registers during the concurrent phase instead of before it
 	// calls issued from inside the Configure handler (the plugin is registered, Start() waits)
 	InConfigure []C19Call `json:"in_configure,omitempty"`
@@ -179,7 +180,27 @@ type C19FailedStart struct {
 	Calls []C19Call `json:"calls"`
 }
 
+// C19Abandon is the "abandoned while queued" shape. Plugin 0 is the holder's plugin, plugin
+// 1 is A (not subscribed to the holder's event), the others follow. A first holder occupies
+// the runtime for a while: a lifecycle request for Event relayed through the subscribed
+// plugins (their handlers take the case's handler time each), or an update of plugin 0 (the
+// case's UpdateFn time). QueueDelayMs after it began A issues Call, which has to queue;
+// StopDelayMs later A's stub is stopped, so the runtime sees A's request cancelled while it
+// is still waiting; OthersDelayMs later Others are issued, one per further plugin, while the
+// first holder is still at work.
+type C19Abandon struct {
+	Holder        string    `json:"holder"` // request | update
+	Event         int32     `json:"event,omitempty"`
+	HolderCall    C19Call   `json:"holder_call"`
+	QueueDelayMs  int       `json:"queue_delay_ms"`
+	StopDelayMs   int       `json:"stop_delay_ms"`
+	OthersDelayMs int       `json:"others_delay_ms"`
+	Call          C19Call   `json:"call"`
+	Others        []C19Call `json:"others"`
+}
+
 type C19Case struct {
+	Abandon *C19Abandon `json:"abandon,omitempty"`
 	Plugins []C19Plugin `json:"plugins"`
 	// executed one after the other once the up-front plugins have registered
 	FailedStarts []C19FailedStart `json:"failed_starts,omitempty"`
@@ -303,9 +324,43 @@ func genC19Queue(t *rapid.T) C19Case {
 	return c
 }
 
+// genC19Abandon draws an "abandoned while queued" case (see C19Abandon).
+func genC19Abandon(t *rapid.T) C19Case {
+	ab := &C19Abandon{
+		QueueDelayMs:  rapid.IntRange(15, 40).Draw(t, "queue_delay_ms"),
+		StopDelayMs:   rapid.IntRange(15, 50).Draw(t, "stop_delay_ms"),
+		OthersDelayMs: rapid.IntRange(15, 50).Draw(t, "others_delay_ms"),
+		Call:          genC19Call(false).Draw(t, "abandoned_call"),
+		HolderCall:    genC19Call(false).Draw(t, "holder_call"),
+	}
+	c := C19Case{Abandon: ab, EmptyMode: rapid.IntRange(0, 2).Draw(t, "empty_mode")}
+	k := rapid.IntRange(3, 4).Draw(t, "plugins")
+	for i := 0; i < k; i++ {
+		p := C19Plugin{Idx: fmt.Sprintf("%02d", rapid.IntRange(0, 99).Draw(t, "idx"))}
+		if i == 1 {
+			p.Mask = 1 << 2 // RemovePodSandbox only: never part of the holder's request
+		}
+		c.Plugins = append(c.Plugins, p)
+	}
+	ab.Others = rapid.SliceOfN(genC19Call(false), 1, 2).Draw(t, "other_calls")
+	if rapid.Bool().Draw(t, "holder_is_request") {
+		ab.Holder = "request"
+		ab.Event = rapid.SampledFrom([]int32{4, 8, 10, 1, 6, 12, 13}).Draw(t, "event")
+		// k-1 handlers in a row: at least 2 x 150 ms against at most 140 ms of delays
+		c.SpinHdlUs = rapid.IntRange(150, 250).Draw(t, "hold_ms") * 1000
+	} else {
+		ab.Holder = "update"
+		c.SpinUpdUs = rapid.IntRange(300, 400).Draw(t, "hold_ms") * 1000
+	}
+	return c
+}
+
 func genC19(t *rapid.T) C19Case {
-	if rapid.IntRange(0, 24).Draw(t, "queue_shape") == 24 {
+	switch rapid.IntRange(0, 24).Draw(t, "shape") {
+	case 24:
 		return genC19Queue(t)
+	case 21, 22, 23:
+		return genC19Abandon(t)
 	}
 	c := C19Case{
 		SpinUpdUs: rapid.SampledFrom([]int{0, 100, 500, 500, 1000, 2000}).Draw(t, "spin_update_us"),
@@ -454,7 +509,18 @@ type c19FS struct {
 	Skipped  string `json:"skipped,omitempty"`
 }
 
+// c19AbMarks are the sequence marks of an abandon shape.
+type c19AbMarks struct {
+	HolderStart int64   `json:"holder_start"`
+	HolderEnd   int64   `json:"holder_end"`
+	Queued      int64   `json:"queued"`
+	StopBegin   int64   `json:"stop_begin"`
+	StopEnd     int64   `json:"stop_end"`
+	Others      []int64 `json:"others"`
+}
+
 type c19Hist struct {
+	Abandon      *c19AbMarks  `json:"abandon,omitempty"`
 	FailedStarts []c19FS      `json:"failed_starts,omitempty"`
 	Plugins      []*c19Reg    `json:"plugins"`
 	Seen         []c19Seen    `json:"update_fn_calls"`
@@ -480,6 +546,7 @@ type c19Exec struct {
 	overlaps  []string
 	inUpdate  int
 	fstarts   []c19FS
+	abMarks   *c19AbMarks
 	extra     []*fx.Plugin // helper and failed-start plugins, stopped at the end
 	inHandler int
 	handlers  int
@@ -566,6 +633,7 @@ const (
 	kRaceStop    = "racestop"
 	kAfterStop   = "afterstop"
 	kFailedStart = "failedstart"
+	kAbandoned   = "abandoned"
 )
 
 // c19Live is a connected plugin.
@@ -596,7 +664,7 @@ func (x *c19Exec) newPlugin(i int, spec C19Plugin) (*c19Live, chan struct{}, cha
 			}()
 			<-done // every call has its own watchdog
 		}
-		return 0, nil
+		return api.EventMask(spec.Mask), nil
 	}
 	p.OnSynchronize = func(context.Context, []*api.PodSandbox, []*api.Container) ([]*api.ContainerUpdate, error) {
 		select {
@@ -932,6 +1000,63 @@ func runC19Once(c C19Case) (ev.Outcome, int) {
 			}
 		}()
 	}
+	if ab := c.Abandon; ab != nil && !broken && len(earlyIdx) >= 3 {
+		holder, a, others := live[earlyIdx[0]], live[earlyIdx[1]], earlyIdx[2:]
+		marks := &c19AbMarks{Others: make([]int64, len(ab.Others))}
+		x.abMarks = marks
+		ms := func(n int) time.Duration {
+			if n < 0 || n > 2000 {
+				n = 0
+			}
+			return time.Duration(n) * time.Millisecond
+		}
+		wg.Add(2)
+		go func() { // the first holder
+			defer wg.Done()
+			<-start
+			marks.HolderStart = x.ctr.Add(1)
+			if ab.Holder == "update" {
+				x.issue(holder.p.Stub, holder.p.Name, kUpdater, "h0", ab.HolderCall, false)
+			} else if ab.Event >= 1 && ab.Event <= 13 {
+				sp := c19Span{Tag: fmt.Sprintf("k%dhold", x.no)}
+				sp.Start = x.ctr.Add(1)
+				_, err := fire(rt.A, ab.Event, sp.Tag)
+				sp.End = x.ctr.Add(1)
+				sp.Err = shortErr(err)
+				x.mu.Lock()
+				x.spans = append(x.spans, sp)
+				x.mu.Unlock()
+			}
+			marks.HolderEnd = x.ctr.Add(1)
+		}()
+		go func() { // plugin A: queue an update, then go away
+			defer wg.Done()
+			<-start
+			time.Sleep(ms(ab.QueueDelayMs))
+			done := make(chan struct{})
+			marks.Queued = x.ctr.Add(1)
+			go func() {
+				defer close(done)
+				x.issue(a.p.Stub, a.p.Name, kAbandoned, "b0", ab.Call, false)
+			}()
+			time.Sleep(ms(ab.StopDelayMs))
+			marks.StopBegin = x.ctr.Add(1)
+			a.p.Stub.Stop()
+			marks.StopEnd = x.ctr.Add(1)
+			<-done
+		}()
+		for oi, call := range ab.Others {
+			wg.Add(1)
+			go func(oi int, call C19Call) { // further plugins update while the holder is still at work
+				defer wg.Done()
+				<-start
+				time.Sleep(ms(ab.QueueDelayMs) + ms(ab.StopDelayMs) + ms(ab.OthersDelayMs))
+				l := live[others[oi%len(others)]]
+				marks.Others[oi] = x.ctr.Add(1)
+				x.issue(l.p.Stub, l.p.Name, kUpdater, fmt.Sprintf("o%d", oi), call, false)
+			}(oi, call)
+		}
+	}
 	wg.Add(1)
 	go func() {
 		defer wg.Done()
@@ -1017,7 +1142,7 @@ func runC19Once(c C19Case) (ev.Outcome, int) {
 	rt.Stop()
 
 	x.mu.Lock()
-	h := &c19Hist{FailedStarts: x.fstarts, Seen: x.seen, Issued: x.issued, Requests: x.spans, Overlaps: x.overlaps, Handlers: x.handlers}
+	h := &c19Hist{FailedStarts: x.fstarts, Abandon: x.abMarks, Seen: x.seen, Issued: x.issued, Requests: x.spans, Overlaps: x.overlaps, Handlers: x.handlers}
 	x.mu.Unlock()
 	for _, l := range live {
 		if l != nil {
@@ -1050,6 +1175,7 @@ var c19KindText = map[string]string{
 	kAfterStop:   "after Stop() returned",
 	kUnstarted:   "on a never-started stub",
 	kFailedStart: "on a stub whose Start() had failed",
+	kAbandoned:   "while the runtime was occupied, the plugin being stopped while the call was queued",
 }
 
 // c19Strict judges a call that must have been delivered: (1) exactly once, unchanged,
@@ -1172,12 +1298,19 @@ func judgeC19(c C19Case, h *c19Hist) (ev.Outcome, int) {
 				return fail(atOnce, "UpdateContainers on a stub whose Start() had failed (%s) returned a failed list %v", is.Mode, is.FailedIDs)
 			}
 			continue
-		case kRaceStop, kAfterStop:
+		case kRaceStop, kAfterStop, kAbandoned:
 			// the session is going or gone: the call must come back (checked above); it may
 			// have been delivered or not, but not twice, and a success must be a real one
 			classes[is.Kind] = true
 			if len(ss) > 1 {
 				return fail(atOnce, "update call %s issued %s reached the runtime's UpdateFn %d times", is.Tag, c19KindText[is.Kind], len(ss))
+			}
+			if is.Kind == kAbandoned {
+				if len(ss) == 1 {
+					classes["abandoned:callback-ran"] = true
+				} else {
+					classes["abandoned:callback-not-run-by-the-end"] = true
+				}
 			}
 			if is.Kind == kAfterStop && (is.err == nil || len(ss) > 0) {
 				return fail(atOnce, "update call %s issued after Stop() had returned was not refused: err=%q, reached UpdateFn %d times", is.Tag, is.Err, len(ss))
@@ -1246,6 +1379,19 @@ func judgeC19(c C19Case, h *c19Hist) (ev.Outcome, int) {
 	}
 	if emptySeen != emptyIssued {
 		return fail(atOnce, "%d empty update lists were sent, UpdateFn was called %d times with an empty list", emptyIssued, emptySeen)
+	}
+	if m := h.Abandon; m != nil {
+		classes["abandon-shape"] = true
+		inOrder := m.HolderStart < m.Queued && m.Queued < m.StopBegin && m.StopEnd < m.HolderEnd
+		for _, o := range m.Others {
+			if o < m.StopEnd || o > m.HolderEnd {
+				inOrder = false
+			}
+		}
+		if inOrder { // by the marks, everything happened within the first holder's turn
+			classes["abandoned-while-queued"] = true
+			classes["abandoned-while-queued:holder-"+c.Abandon.Holder] = true
+		}
 	}
 	for _, f := range h.FailedStarts {
 		if f.Started {
